@@ -828,7 +828,13 @@ def _resolve(selector, env, cnt):
             # If fn is a method, we add a capture for "self" that must
             # match the instance.
             real_fn = _dig(fn.__func__)
-            selfname = inspect.getfullargspec(real_fn).args[0]
+            argnames = inspect.getfullargspec(real_fn).args
+            if not argnames:
+                raise SelectorError(
+                    f"Cannot select {fn}: the receiver of the method has no"
+                    " parameter of its own."
+                )
+            selfname = argnames[0]
             el = el.clone(name=real_fn)
             captures.append(
                 Element(
